@@ -33,8 +33,8 @@ def run_one(s):
     tr = {"prm": {k: v * U.F for k, v in row.items()}, "exc": "", "N": 0}
     vs = U.space_vars(e)
 
-    def coords(p):
-        return torch.cat([p.coordinates[v] for v in vs], dim=1).detach()
+    def coords(p):          # all space variables, or only the one the scenario projects on (marginal laws of products)
+        return torch.cat([p.coordinates[v] for v in ([s["proj"]] if s.get("proj") else vs)], dim=1).detach()
 
     made = {}
 
@@ -50,6 +50,14 @@ def run_one(s):
             return watched(lambda: dom.sample_random_uniform(d=s["d"], params=par), 20)
         if law == "grid":
             return watched(lambda: dom.sample_grid(n=N, params=par), 20)
+        if law == "grid_acc":          # many small grids on the same object, accumulated (s["d"] calls of s["std"] points each)
+            def acc():
+                parts = [dom.sample_grid(n=s["std"], params=par) for _ in range(s["d"])]
+                out = parts[0]
+                for q in parts[1:]:
+                    out = out | q
+                return out
+            return watched(acc, 30)
         if law == "gauss":
             smp = sampler(("gauss", N), lambda: tp.samplers.GaussianSampler(dom, n_points=N, mean=[m / 4.0 for m in s["mean"]], std=s["std"] / 4.0))
             return watched(lambda: smp.sample_points(par), 60)
